@@ -82,6 +82,14 @@ def build(case):
 
     def run_top(base, ops):
         ns, _ = load(TMPL)
+        if p.get("pretooled"):
+            # the functions are instrumented permanently (@tooled.inplace): generators created while no overlay is
+            # open run instrumented code too
+            from ptera import tooled
+
+            with NoTracing():
+                tooled.inplace(ns["gen"])
+                tooled.inplace(ns["a_fn"])
         a_fn, gen = ns["a_fn"], ns["gen"]
         fails = []
 
@@ -93,6 +101,7 @@ def build(case):
         msgs = []
         ov = None  # (probe_gen, probe_plain, list_gen, list_plain, roots)
         ended_roots = []  # handler objects of overlays that have ended
+        ended_lists = []  # (event list of an ended overlay's probe, its length when the overlay ended)
         gens = {0: None, 1: None}  # k -> [generator, state, crossed]  state: 'new' | 'susp' | 'done'
         genlog = {0: 0, 1: 0}  # next value index per generator
         exp_gen, exp_plain = [], []
@@ -130,6 +139,8 @@ def build(case):
                         ov[1].__exit__(None, None, None)
                         ov[0].__exit__(None, None, None)
                     ended_roots += ov[4]
+                    ended_lists.append((ov[2], len(ov[2])))
+                    ended_lists.append((ov[3], len(ov[3])))
                     ov = None
                     for g in gens.values():
                         if g and g[1] == "susp":
@@ -202,6 +213,9 @@ def build(case):
                 for r in open_roots:
                     soft(any(acc is r for _s, acc in pairs), f"C09:current:{sit}:missing:root-of-open-overlay",
                          f"a handler of an open overlay is no longer installed ({sit})")
+                for lst, n_at_end in ended_lists:
+                    soft(len(lst) == n_at_end, f"C09:events:ended-overlay-received:{sit}",
+                         "a probe whose with-block has ended received an event (from a generator resumed afterwards?)")
                 if ov is not None:
                     got_g, got_p = [x for x in ov[2] if not any(x == y for y in dontcare)], ov[3]
                     if len(got_g) != len(exp_gen) or any(x != y for x, y in zip(got_g, exp_gen)):
@@ -305,6 +319,11 @@ def cases(tier, seed):
                 cs.append({"id": f"top:ops={first},{second},{third}",
                            "params": {"kind": "top", "n": n, "first": first, "second": second, "third": third},
                            "budget_s": 5000 if th else 250, "per_path_s": 30})
+    # permanently tooled functions: generators that start while no overlay is open
+    for (f1, f2, f3, nn) in ((1, 3, 5, 5), (1, 4, 6, 5), (3, 5, 1, 5), (3, 5, 5, 5), (3, 4, 5, 5), (3, 1, 5, 5), (3, 5, 9, 4), (3, 5, 7, 4), (3, 4, 6, 4)):
+        cs.append({"id": f"pretooled:ops={f1},{f2},{f3}:n={nn}",
+                   "params": {"kind": "top", "n": nn + (1 if th else 0), "first": f1, "second": f2, "third": f3, "pretooled": True},
+                   "budget_s": 5000 if th else 250, "per_path_s": 30})
     if not th:
         # one level deeper where it matters most: a generator created and advanced under an open overlay, then two more steps
         for (f1, f2, f3) in ((1, 3, 5), (1, 4, 6), (3, 1, 5), (1, 3, 3)):
